@@ -357,6 +357,9 @@ def _yield_guard(f, y):
                         for n2 in walk_local(f.node):
                             if isinstance(n2, ast.AugAssign) and isinstance(n2.op, ast.Sub) and norm(n2.target) == S and norm(n2.value) == T:
                                 return "G4", "for %s in %s ... %s.add(%s) ... %s -= %s" % (x, S, T, x, S, T)
+                            if isinstance(n2, ast.Call) and isinstance(n2.func, ast.Attribute) and n2.func.attr == "difference_update" and norm(n2.func.value) == S \
+                                    and n2.args and norm(n2.args[0]) == T:
+                                return "G4", "for %s in %s ... %s.add(%s) ... %s -= %s" % (x, S, T, x, S, T)
         # G3: for x in result where result = M[k]; del M[k] / M.pop(k) / names_to_remove.append(k) + del loop
         bucket = it
         if isinstance(it, ast.Call) and isinstance(it.func, ast.Attribute) and it.func.attr == "pop" and it.args:
@@ -430,6 +433,10 @@ def stage_disjointness(f, S, Y):
     `if x in Y: continue`), and S is filled in no other way; (b) Y is subtracted from S (`for h in Y: S.discard(h)`, `S -= Y`,
     `S.difference_update(Y)`) at a point after which nothing more is recorded in Y before S is consumed."""
     from ..cfg import cfg_of
+    # `S = T` where T is the local that was actually filled (a helper's result handed on under another name)
+    al = [n for n in walk_local(f.node) if isinstance(n, ast.Assign) and len(n.targets) == 1 and norm(n.targets[0]) == S]
+    if len(al) == 1 and isinstance(al[0].value, ast.Name) and al[0].value.id != S:
+        return stage_disjointness(f, al[0].value.id, Y)
     fills, adds, subtract = [], [], []
     for n in walk_local(f.node):
         if isinstance(n, ast.Call) and isinstance(n.func, ast.Attribute) and n.func.attr == "append" and n.args and (
